@@ -327,6 +327,17 @@ fn frame_case(f: &LmFrame, it: &Item, buf: &mut Buf) {
 fn record_item(sh: &Shared, it: &Item, per_parse: usize, buf: &mut Buf) {
     let shared = &sh.dialects[&it.dialect];
     let mut rng = Rng::new(h64(&it.sql));
+    // monitor of the cache invariant (H_mfn / H_ctx): every cache hit of one ordinary parse is
+    // compared with what matching the same option at the same place returns now
+    verif_switches::set(false, false);
+    verif_switches::audit_start();
+    watch_set(json!({"dialect": it.dialect, "sql": it.sql, "name": it.name, "variant": "audit"}));
+    let _ = parse_with(shared, &it.sql);
+    watch_clear();
+    let (hits, bad, ex) = verif_switches::audit_take();
+    buf.count("cache_hits_audited", hits);
+    buf.count("cache_hits_differing_from_recomputation", bad);
+    buf.hyp("H_mfn_cache_hit_equals_recomputation(Inv)", "diagnostic", bad == 0, json!({"dialect": it.dialect, "sql": trunc(&it.sql, 400), "hits": hits, "differing": bad, "first": ex}));
     for (co, po) in [(false, false), (true, true), (false, true)] {
         verif_switches::set(co, po);
         verif_switches::rec_start(4000);
@@ -549,7 +560,7 @@ pub fn main(args: &Args) {
     par_run(&mut out, &items, || (), |_, it, buf| run_item(&sh, it, buf));
 
     // correspondence: recorded longest_match calls of a sample of the inputs
-    let step = if args.thorough() { 3 } else { 12 };
+    let step = if args.thorough() { 6 } else { 12 };
     let rec_items: Vec<Item> = items.iter().step_by(step).cloned().collect();
     par_run(&mut out, &rec_items, || (), |_, it, buf| record_item(&sh, it, 6, buf));
 
